@@ -369,6 +369,7 @@ pub fn c01_families(tier: &str) -> Vec<SeqSpec> {
     v.push(trivial_move_family(t, READS));
     v.push(rich_family("F-rich/T300", k3s(), a1(), if t { 6 } else { 4 }, READS));
     v.push(levels_family("F-levels/L", "L", k4(), a1(), if t { 6 } else { 4 }, READS));
+    v.push(staggered_family("F-staggered/T300", if t { 6 } else { 4 }, READS));
     // from the empty database with tiny level limits: files with distinct keys are moved down level
     // by level without being rewritten (trivial moves), the same file several times within one
     // manifest, and the manifest is replayed by the reopen
@@ -476,6 +477,7 @@ pub fn c07(tier: &str) -> ! {
     fams.push(spec("C07-seek/T300", &["T300"], k4(), a_seek, if t { 7 } else { 5 }, ck).flush());
     fams.push(rich_family("C07-rich/T300", k3(), a_c07_small(), if t { 5 } else { 3 }, ck));
     fams.push(levels_family("C07-levels/L", "L", k4(), a_c07_small(), if t { 4 } else { 3 }, ck));
+    fams.push(staggered_family("C07-staggered/T300", if t { 5 } else { 3 }, ck));
     if t {
         fams.push(spec("C07-full/T300", &["T300"], k3(), a_c07_full(), 4, ck).flush());
         fams.push(spec("C07-ranged/T1", &["T1"], k3(), a_c07_small(), 5, ck).flush());
@@ -885,6 +887,34 @@ pub fn levels_setup() -> Vec<Op> {
 
 pub fn levels_family(name: &str, cfg: &str, keys: Vec<Vec<u8>>, alphabet: Vec<Op>, depth: usize, ck: Checks) -> SeqSpec {
     spec(name, &[cfg], keys, alphabet, depth, ck).flush().with_setup(levels_setup())
+}
+
+/// Staggered overlap between two levels: two disjoint files on level 2 ([k0..k1], [k2..k3]); the
+/// alphabet can put files on level 1 that lie inside one of them or straddle both (a batch that
+/// puts k1 and deletes k2), and compacts single-key ranges, so that growing the level-1 inputs of
+/// a compaction would reach into a level-2 file that is not part of it.
+pub fn staggered_family(name: &str, depth: usize, ck: Checks) -> SeqSpec {
+    let alphabet = vec![
+        Op::Put(0, 0),
+        Op::Put(1, 0),
+        Op::Put(3, 0),
+        Op::Del(2),
+        Op::Batch(vec![(1, true), (2, false)]),
+        Op::Batch(vec![(2, true), (1, false)]),
+        Op::Batch(vec![(1, true), (2, true)]),
+        Op::Compact(Some(0), Some(0)),
+        Op::Compact(Some(1), Some(1)),
+        Op::Compact(Some(3), Some(3)),
+        Op::Compact(None, None),
+    ];
+    spec(name, &["T300"], k4s(), alphabet, depth, ck)
+        .flush()
+        .with_setup(vec![Op::Batch(vec![(0, true), (1, true)]), Op::Flush, Op::Batch(vec![(2, true), (3, true)]), Op::Flush])
+}
+
+/// four stored keys c < d < e < f
+pub fn k4s() -> Vec<Vec<u8>> {
+    vec![b"c".to_vec(), b"d".to_vec(), b"e".to_vec(), b"f".to_vec()]
 }
 
 pub fn rich_family(name: &str, keys: Vec<Vec<u8>>, alphabet: Vec<Op>, depth: usize, ck: Checks) -> SeqSpec {
